@@ -38,19 +38,19 @@ SPEC = dict(
         dict(name="singleton", flavour="tsan", min_celma_stacks=1, eval_stat="singleton_rounds",
              cases={"quick": 384, "thorough": 16800}, chunk={"quick": 24, "thorough": 240},
              repeat=1, parallel={"quick": 4, "thorough": 6}, args={"batch": BATCH},
-             require_stats=["singleton_rounds_T2", "singleton_rounds_T16"], timeout={"quick": 150, "thorough": 900}),
+             require_stats=["singleton_rounds_T2", "singleton_rounds_T16"], timeout={"quick": 1200, "thorough": 3600}),
         dict(name="mthread", flavour="tsan", min_celma_stacks=1, eval_stat="mthread_lifetimes",
              cases={"quick": 864, "thorough": 40500}, chunk={"quick": 54, "thorough": 810},
              repeat=1, parallel={"quick": 8, "thorough": 12}, args={"batch": BATCH},
              require_stats=["mthread_lifetimes_blocking", "mthread_lifetimes_empty", "mthread_lifetimes_short",
                             "mthread_lifetimes_observed-by-other-thread", "mthread_lifetimes_detached-while-running",
-                            "mthread_active_samples", "mthread_samples_after_detach"], timeout={"quick": 150, "thorough": 900}),
+                            "mthread_active_samples", "mthread_samples_after_detach"], timeout={"quick": 1200, "thorough": 3600}),
         dict(name="singleton-plain", hmode="singleton", flavour="plain", eval_stat="singleton_rounds",
              cases={"quick": 384, "thorough": 16800}, workers={"quick": 4, "thorough": 6}, args={"batch": BATCH},
-             timeout={"quick": 150, "thorough": 900}),
+             timeout={"quick": 1200, "thorough": 3600}),
         dict(name="mthread-plain", hmode="mthread", flavour="plain", eval_stat="mthread_lifetimes",
              cases={"quick": 864, "thorough": 40500}, workers={"quick": 8, "thorough": 12}, args={"batch": BATCH},
-             timeout={"quick": 150, "thorough": 900}),
+             timeout={"quick": 1200, "thorough": 3600}),
     ],
 )
 
